@@ -786,6 +786,17 @@ def run(repo, tier):
     for rel2 in ("apmath.py", "apmath_algorithms.py"):
         for c in [c for c in ast.walk(repo.tree(rel2)) if isinstance(c, ast.Call) and (call_name(c) or "").endswith("two_prod")]:
             kws = {kw.arg: norm_src(kw.value) for kw in c.keywords}
+            # inside a function that takes fix_overflow itself (the FMA variants), every product must be given it: a call that drops
+            # the keyword runs the unguarded Dekker product whatever the caller asked for
+            owner = c
+            while owner is not None and not isinstance(owner, (ast.FunctionDef, ast.AsyncFunctionDef)):
+                owner = getattr(owner, "_parent", None)
+            owner_has = owner is not None and any(a.arg == "fix_overflow" for a in owner.args.args + owner.args.kwonlyargs)
+            if "fix_overflow" not in kws and owner_has and owner.name != "two_prod":
+                n_fma += 1
+                r.ob("R11.3", f"{rel2}::{owner.name} two_prod without fix_overflow", False,
+                     f"`{norm_src(c)[:90]}` does not forward the fix_overflow option of `{owner.name}`: this product has no overflow fallback, so a finite x*y next to the "
+                     "overflow threshold yields inf/nan in this variant whatever fix_overflow the caller passed", loc(rel2, c))
             if "fix_overflow" in kws:
                 n_fma += 1
                 r.ob("R11.3", f"{rel2} two_prod(..., fix_overflow={kws['fix_overflow']})", kws["fix_overflow"] in ("fix_overflow", "True"),
